@@ -112,7 +112,12 @@ fn settings_for(c: &Case, unix_path: &str) -> Result<LdapConnSettings, String> {
         s = s.set_starttls(true);
     }
     if let Some(t) = c.timeout_ms {
-        s = s.set_conn_timeout(Duration::from_millis(t));
+        // the two largest values stand for "effectively forever" durations
+        s = s.set_conn_timeout(match t {
+            u64::MAX => Duration::MAX,
+            x if x == u64::MAX - 1 => Duration::from_secs(u64::MAX),
+            ms => Duration::from_millis(ms),
+        });
     }
     match c.stream {
         Stream::None => {}
@@ -131,6 +136,24 @@ fn settings_for(c: &Case, unix_path: &str) -> Result<LdapConnSettings, String> {
 
 pub fn table(ctx: &Ctx) -> Report {
     let mut rep = Report::new();
+    // a missing host means localhost for the TLS layer too (server certificate issued to localhost)
+    if std::env::var("SSL_CERT_FILE").is_ok() {
+        for (mode, outcome) in crate::lanes::c17::missing_host_probe() {
+            let replay = json!({"lane":"table","case":"missing-host-with-TLS","mode":mode});
+            if outcome == "Ok" {
+                rep.count("ok_missing_host_with_tls", 1);
+            } else if outcome == "Hung" || outcome.starts_with("Setup(") {
+                rep.inconclusive(format!("missing host with TLS ({}): {}", mode, outcome));
+            } else if outcome.starts_with("Panic(") {
+                rep.violation(format!("C18:panic:missing-host-with-TLS:{}", outcome), format!("{}: {}", mode, outcome), replay);
+            } else {
+                rep.violation("C18:valid-setup-fails:missing-host-with-TLS", format!("{} with a pre-opened stream to a TLS server whose trusted certificate names localhost: {}", mode, outcome), replay);
+            }
+            rep.case(Some(fnv(mode.as_bytes())));
+        }
+    } else {
+        rep.inconclusive("SSL_CERT_FILE is not set: the missing-host TLS cases were skipped");
+    }
     let _lock = match lock_ports() {
         Some(l) => l,
         None => {
@@ -256,6 +279,12 @@ pub fn table(ctx: &Ctx) -> Report {
         adds(format!("ldapi://{}", pct_path(&unix_plain)), Stream::TcpTo(pe), Expect::Err(vec!["MismatchedStreamType"]), "TCP stream with an ldapi URL naming a live socket");
         adds(format!("ldaps://127.0.0.1:{}", pe), Stream::Invalid, Expect::Err(vec!["MismatchedStreamType"]), "invalid (cloned) stream with ldaps");
         adds(format!("ldap://127.0.0.1:{}", pe), Stream::Invalid, Expect::Err(vec!["MismatchedStreamType"]), "invalid (cloned) stream with ldap");
+        // --- "effectively forever" connection timeouts are just long timeouts ---
+        for t in [u64::MAX, u64::MAX - 1] {
+            cases.push(Case { url: format!("ldap://127.0.0.1:{}", pe), starttls: false, timeout_ms: Some(t), stream: Stream::None, expect: Expect::OkVia("tcp4:eph".into()), max_ms: None, note: "huge connection timeout, reachable endpoint" });
+            cases.push(Case { url: format!("ldap://127.0.0.1:{}", dead), starttls: false, timeout_ms: Some(t), stream: Stream::None, expect: Expect::Err(vec!["Io"]), max_ms: None, note: "huge connection timeout, unreachable endpoint" });
+            cases.push(Case { url: format!("ldapx://127.0.0.1:{}", pe), starttls: false, timeout_ms: Some(t), stream: Stream::None, expect: Expect::Err(vec!["UnknownScheme"]), max_ms: None, note: "huge connection timeout, unknown scheme" });
+        }
         // --- timeout bounds the whole establishment, including StartTLS ---
         cases.push(Case { url: format!("ldap://127.0.0.1:{}", ps), starttls: true, timeout_ms: Some(300), stream: Stream::None, expect: Expect::Err(vec!["Timeout"]), max_ms: Some(6_000), note: "StartTLS against a server that never answers: the connection timeout must fire" });
         cases.push(Case { url: format!("ldaps://127.0.0.1:{}", ps), starttls: false, timeout_ms: Some(300), stream: Stream::None, expect: Expect::Err(vec!["Timeout"]), max_ms: Some(6_000), note: "TLS handshake against a server that never answers: the connection timeout must fire" });
